@@ -324,9 +324,18 @@ def check_assumptions(ctx: Ctx) -> dict:
 
 
 # ------------------------------------------------------------------ correspondence
+def _unlimit_stack():
+    import resource
+    try:
+        resource.setrlimit(resource.RLIMIT_STACK, (resource.RLIM_INFINITY, resource.RLIM_INFINITY))
+    except Exception:  # noqa
+        pass
+
+
 def _run_case_file(args):
     path, wd = args
-    r = subprocess.run(["coqc", "-Q", COQ, "V", path], capture_output=True, text=True, timeout=1800, cwd=wd)
+    r = subprocess.run(["coqc", "-Q", COQ, "V", path], capture_output=True, text=True, timeout=1800, cwd=wd,
+                       preexec_fn=_unlimit_stack)
     return path, r.returncode, r.stdout + r.stderr
 
 
